@@ -449,6 +449,28 @@ def run_C04(ctx, proof_ok):
                              "backend_cases": n2, **{"backend_" + k: int(v) for k, v in dist2.items()}, "batched_cases": n3}}
 
 
+def run_C05(ctx, proof_ok):
+    import difc
+
+    E = epg()
+    r = lib.rng(5)
+    corpus = [c for c in load_corpus(ctx.prop) if "ops" in c]
+    cases = corpus + [difc.gen_case(r, maxlen=budget(ctx.tier, 10, 16)) for _ in range(budget(ctx.tier, 200, 4000))]
+    n1, d1 = difc.compare(cases, E)
+    n2, d2, dist2 = difc.search_pathways(r, E, budget(ctx.tier, 120, 3000))
+    n3, d3 = difc.search_identities(r, E, budget(ctx.tier, 60, 1500))
+    ctx.violations.extend(d1 + d2 + d3)
+    return {"evaluations": n1 + n2 + n3, "distinct_nontrivial": sum(1 for c in cases if len(c["ops"]) > 3) + n2 + n3,
+            "rule": "random sequences of T/E/Phi, integer 1-3-D shifts and D(tau, D[, k]) with scalar or random SPD tensor "
+                    "diffusivities, kvalue in [2e3, 3e4] rad/m: wavenumber -> state tables of epgpy vs the Lean coordinate-table "
+                    "model with `diffuse`; the property: 1-4 RF pulses of arbitrary flip angle/phase with gradient and gradient-free "
+                    "intervals, every stored state and F0 vs the explicit sum over all coherence pathways of amplitude*exp(-b:D) "
+                    "with the closed-form integral of k(t)k(t)^T per interval (own formulas, ms / mm^2/s / rad/m); identities: scalar "
+                    "vs isotropic tensor, float gridded vs integer wavenumbers, zero state untouched without gradient",
+            "samples": [lib.jsonable(cases[-1])],
+            "distribution": {"model_cases": n1, "pathway_cases": n2, **{k: int(v) for k, v in dist2.items()}, "identity_cases": n3}}
+
+
 def merge_results(a, b, rule):
     out = dict(a)
     out["evaluations"] = a["evaluations"] + b["evaluations"]
@@ -853,6 +875,21 @@ PROPS["C04"] = {
                 "off-resonance as characters), no pruning and no cap; lattice indices stand for gridded float wavenumbers that are "
                 "not merged (the property's side condition); merging/pruning, unique_1d/lexsort, add_at and the batch plumbing of "
                 "shiftmerge/shiftprune are tied by execution and by the back-end agreement search only"],
+}
+
+PROPS["C05"] = {
+    "lean_modules": ["EpgVerif.Tie.Diffusion", "EpgVerif.Props.C05"],
+    "tie": [],
+    "audit": "EpgVerif/Audit/C05.lean",
+    "run": run_C05,
+    "replay": replay_generic,
+    "theorems_hint": ["bmatRamp_is_integral", "bmatConst_is_integral", "scalar_is_isotropic", "zero_wavenumber_unattenuated", "att_mul",
+                      "get_diffuse", "Tie.Diffusion.bmat3_ramp_tie"],
+    "partial": ["proved: the regenerated compute_bmatrix / diffusion_operator expressions are the model's, the model's b-matrices are "
+                "the time integrals of k k^T (constant and linear ramp), scalar = isotropic, k = 0 unattenuated, b-matrices add along "
+                "a pathway, D acts state-wise on the coordinate table; the statement 'signal = sum over pathways' itself is decided "
+                "by the explicit pathway enumeration on the real code, not by a theorem (linearity of the EPG makes it follow from "
+                "the state-wise action, but the pathway expansion is not formalised)"],
 }
 
 NOT_CLAIMED = {}
